@@ -27,13 +27,17 @@ class LocalDeme(AbstractDeme):
     def run_metaepoch(self, _) -> None:
         x0 = self._sprout_seed.genome
         # scipy always minimises: on a maximisation problem it is handed the negated objective.
-        if self._problem.maximize:
+        sign = -1.0 if self._problem.maximize else 1.0
+        n_calls = 0
 
-            def fun(x):
-                return -self._problem.evaluate(x)
-
-        else:
-            fun = self._problem.evaluate
+        def fun(x):
+            nonlocal n_calls
+            if not np.all(np.isfinite(x)):
+                # scipy's own arithmetic has broken down (e.g. a gradient estimated from an infinite value):
+                # such an iterate is not a point of the domain, the objective is not asked about it.
+                return np.inf
+            n_calls += 1
+            return sign * self._problem.evaluate(x)
 
         result = sopt.minimize(
             fun,
@@ -44,9 +48,8 @@ class LocalDeme(AbstractDeme):
             options=self._options,
         )
 
-        # Accessing the result object gives the exact number of function evaluations.
-        # Callback does not include jacobian approximation etc
-        self._n_evals += result.nfev
+        # The exact number of objective evaluations (the callback does not see jacobian approximation etc.).
+        self._n_evals += n_calls
         # Encapsulating all iterations in a list to match actual metaepoch count
         self._history.append([self._run_history])
         # By design local optimization is a one-metaepoch process
